@@ -11,7 +11,8 @@ What the code does today is modelled, not what it should do:
   `iq.sequence() != job->d->ibbSequence` and increments: all three are 16-bit and wrap from 65535
   to 0, as XEP-0047 prescribes.  Here: `UInt16` everywhere.
 * The receiver finds the job by (sender JID, session id) — `getIncomingJobBySid` — and needs
-  `TransferState` for `<data/>`, but NOT for `<open/>` and `<close/>`.
+  `TransferState` for `<data/>` and `StartState` for `<open/>` (repo commit 31a1bb4); `<close/>` has no state
+  requirement.
 * The final check (`checkData`) compares the byte count only if a non-zero size was announced
   and the MD5 only if a hash was announced.
 * `QXmppTransferIncomingJob::writeData` calls `QIODevice::write` ONCE per block and does not retry.  A write
@@ -178,8 +179,10 @@ def recv (H : List UInt8 → List UInt8) (r : Recv) (st : Stanza) : Recv × Repl
         -- the return value of writeData is ignored: counted and acknowledged whatever the device did
         (({ r with expected := r.expected + 1 }).write payload, { id := st.id, to := st.sender, err := none })
     | .open bs =>
-      -- no state requirement either: a finished job is put back into TransferState
-      if bs > r.maxBlock then (r, { id := st.id, to := st.sender, err := some .resourceConstraint })
+      -- only a job that was accepted and waits for the bytestream may be opened (repo commit 31a1bb4): a late or forged
+      -- `<open/>` cannot put a running, finished or failed job (back) into TransferState
+      if r.state ≠ .start then (r, { id := st.id, to := st.sender, err := some .itemNotFound })
+      else if bs > r.maxBlock then (r, { id := st.id, to := st.sender, err := some .resourceConstraint })
       else ({ r with blockSize := bs, state := .transfer }, { id := st.id, to := st.sender, err := none })
 
 /-! ### sending job (QXmppTransferOutgoingJob + ibbResponseReceived) -/
